@@ -176,7 +176,7 @@ func synthesizeAAAA(qname string, a *dns.A, prefix *net.IPNet, ttl uint32) *dns.
 // be a translated address, so refusing to extract avoids
 // returning a confusing CNAME for unrelated traffic.
 func extractIPv4(prefix *net.IPNet, addr net.IP) (net.IP, bool) {
-	if !prefix.Contains(addr) {
+	if !prefixContains(prefix, addr) {
 		return nil, false
 	}
 	bits, _ := prefix.Mask.Size()
@@ -233,6 +233,25 @@ func extractIPv4(prefix *net.IPNet, addr net.IP) (net.IP, bool) {
 		copy(out, a[12:16])
 	}
 	return out, true
+}
+
+// prefixContains reports whether addr lies in the IPv6 prefix,
+// comparing all 128 bits of the 16-byte forms. net.IPNet.Contains
+// first shortens an address of ::ffff:a.b.c.d form to 4 bytes and
+// then refuses to compare it with a 16-byte network, which rejects
+// an embedded address that happens to have that form (all-zero /56
+// or /64 Pref64 with an IPv4 address such as 0.0.255.255).
+func prefixContains(prefix *net.IPNet, addr net.IP) bool {
+	p, a := prefix.IP.To16(), addr.To16()
+	if p == nil || a == nil || len(prefix.Mask) != net.IPv6len {
+		return false
+	}
+	for i := range a {
+		if (p[i]^a[i])&prefix.Mask[i] != 0 {
+			return false
+		}
+	}
+	return true
 }
 
 func bytesAllZero(b []byte) bool {
